@@ -7,7 +7,7 @@ import SecsModel.Model.Txn
 `txn run <atomic> <patched> <c0> <ncallers> <s1,s2,…>`        → `ok callers=… delivered=… wire=… disp=… live=… busy=… inbox=… two=… stale=…`
                                                               or `stuck <index> <token>` when a step is not enabled.
 Step tokens: `a<c>` alloc, `i<c>` allocRmw, `t<c>` allocRet, `g<c>` register, `s<c>` send, `f<c>` sendFail, `y<c>` fire,
-`r<c>` recv, `o<c>` timeout, `u<c>` unregister, `q<n>` rxPart (n bytes of an incomplete frame), `x<sys>:<tag>` rx, `p<d>` pop, `h<d>` handle, `e<d>` finish, `D` linkDown, `U` linkUp.
+`r<c>` recv, `o<c>` timeout, `u<c>` unregister, `q<n>` rxPart (n bytes of an incomplete frame), `x<sys>:<tag>` rx, `p<d>` pop, `h<d>` handle (the `in _response_queues` test; delivers when false), `w<d>` put (`put_nowait` / KeyError), `e<d>` finish, `D` linkDown, `U` linkUp.
 -/
 namespace SecsModel.Drv.Txn
 open SecsModel SecsModel.Drv SecsModel.Model.Txn
@@ -29,7 +29,7 @@ def parseStep (t : String) : Option Step :=
     | 'a' => pure (.alloc n) | 'i' => pure (.allocRmw n) | 't' => pure (.allocRet n)
     | 'g' => pure (.register n) | 's' => pure (.send n) | 'f' => pure (.sendFail n) | 'y' => pure (.fire n)
     | 'r' => pure (.recv n) | 'o' => pure (.timeout n) | 'u' => pure (.unregister n)
-    | 'p' => pure (.pop n) | 'h' => pure (.handle n) | 'e' => pure (.finish n) | 'q' => pure (.rxPart n)
+    | 'p' => pure (.pop n) | 'h' => pure (.handle n) | 'w' => pure (.put n) | 'e' => pure (.finish n) | 'q' => pure (.rxPart n)
     | _ => none
   | [] => none
 
@@ -55,6 +55,7 @@ def showState (n : Nat) (s : State) : String :=
     ++ " inbox=" ++ showMsgs s.inbox
     ++ " two=" ++ showBool s.everTwo
     ++ s!" stale={s.stale}"
+    ++ " lost=" ++ showMsgs s.lost
 
 partial def runTokens (cfg : Cfg) (s : State) (idx : Nat) : List String → Except String State
   | [] => .ok s
@@ -72,9 +73,10 @@ def handle : List String → String
     | none => "bad-op"
   | ["atomic"] => "ok " ++ showBool Gen.Misc.getNextSystemCounterAtomic
   | ["run", atm, pa, c0, n, sched] =>
-    match parseBool atm, parseBool pa, parseInt c0, n.toNat? with
-    | some atm, some pa, some c0, some n =>
-      let cfg : Cfg := ⟨atm, pa, c0⟩
+    match parseBool (String.ofList (atm.toList.take 1)), parseBool pa, parseInt c0, n.toNat? with
+    | some atm', some pa, some c0, some n =>
+      -- `<atomic>` may carry a second digit: reply-only routing (proposal C06-primary-system-bytes)
+      let cfg : Cfg := { atomic := atm', patched := pa, c0 := c0, replyOnly := atm.toList.drop 1 == ['1'] }
       let toks := if sched == "-" then [] else sched.splitOn ","
       (match runTokens cfg (init cfg) 0 toks with
        | .ok s => "ok " ++ showState n s
